@@ -731,7 +731,17 @@ func (s *kvSubj[K]) checkC09(o *Oracle, keys []K, vals []string) {
 	for it := lm.Iterator(); it.Next(); {
 		itGot = append(itGot, s.pairStr(it.Key(), it.Value()))
 	}
-	lm.Each(func(k K, v string) { eachGot = append(eachGot, s.pairStr(k, v)) })
+	reenter := o.cur.ID%3 == 0 // one check in three: the callback reads the map it is enumerating
+	lm.Each(func(k K, v string) {
+		if reenter {
+			// (Find first: a nested call that ends exactly on the current element could put a shared
+			// cursor back where the outer enumeration expects it)
+			lm.Find(func(k2 K, _ string) bool { return k2 == k })
+			lm.Values()
+			lm.Any(func(K, string) bool { return false })
+		}
+		eachGot = append(eachGot, s.pairStr(k, v))
+	})
 	if !slices.Equal(itGot, want) {
 		o.Fail("C09", "iterator-order", "after %s: iterator order %v, insertion order %v", o.cur, itGot, want)
 	}
